@@ -841,7 +841,7 @@ pub fn run(cfg: &Cfg) -> i32 {
                         ("borrowed", J::B(borrowed)),
                     ]));
                     if strong.saturating_sub(1) != 1 || (b.start() == 0 && buf_len * 8 < b.end() + 8) {
-                        machinery_error("vacuous: the raw-slice recipe no longer yields a uniquely owned bit-string with slack");
+                        vacuous("vacuous: the raw-slice recipe no longer yields a uniquely owned bit-string with slack");
                     }
                 }
             }
@@ -856,13 +856,13 @@ pub fn run(cfg: &Cfg) -> i32 {
         for kind in ["int-generic", "int-fixed", "float-fixed", "float-generic", "raw-literal", "raw-slice", "string", "byte-list"] {
             for a in 0..8 {
                 if cover.get(&format!("align:{}@{}", kind, a)) == 0 {
-                    machinery_error(&format!("vacuous: no {} field at alignment {}", kind, a));
+                    vacuous(&format!("vacuous: no {} field at alignment {}", kind, a));
                 }
             }
         }
         for k in ["int-read:le:unaligned", "int-read:le:aligned", "int-read:be:unaligned", "int-read:be:aligned"] {
             if cover.get(k) == 0 {
-                machinery_error(&format!("vacuous: no case of {}", k));
+                vacuous(&format!("vacuous: no case of {}", k));
             }
         }
     }
